@@ -26,9 +26,11 @@ class World:
     """A havocked instance of `cls_name` in the static heap of an interpreter."""
 
     def __init__(self, program: Program, cls_name="GCodeBuilder", *, loop_unroll=1, root_label="g",
-                 universal_lists=("g._writers",), keep_fields=()):
+                 universal_lists=("g._writers",), keep_fields=(), ctor_args=(), ctor_kwargs=None, module_hint=None):
         self.P = program
-        self.cls = program.cls(cls_name)
+        self.ctor_args = list(ctor_args)
+        self.ctor_kwargs = dict(ctor_kwargs or {})
+        self.cls = program.cls(cls_name, module_hint)
         self.I = Interp(program, loop_unroll=loop_unroll)
         self.root_label = root_label
         self.universal = set(universal_lists)
@@ -68,7 +70,7 @@ class World:
             fr = Frame(None, self.cls.module, {}, qualname="<setup>")
             I.frames = [fr]
             try:
-                root = I.instantiate(self.cls, [], {}, node)
+                root = I.instantiate(self.cls, list(self.ctor_args), dict(self.ctor_kwargs), node)
                 # touch module-level tables the commands use, so that they are static
                 for mod, name in (("gscrib.codes.gcode_mappings", "gcode_table"),):
                     if mod in self.P.modules:
@@ -248,6 +250,27 @@ class World:
             return I.call_function(f, [self.root] + pos + list(varargs), kwargs, node, dyncls=self.cls)
         finally:
             I.frames = []
+
+    def call_method(self, I, label, name, args=(), kwargs=None):
+        """Call method `name` of the object labelled `label` (dynamic dispatch on its class)."""
+        ref = self.ref(label)
+        o = I.heap[ref.addr]
+        f = o.cls.lookup(name)
+        if f is None:
+            raise AnalysisError(f"{o.cls.name} has no method {name}")
+        node = ast.parse("0").body[0]
+        node.lineno = 0
+        pushed = False
+        if not I.frames:
+            I.frames = [Frame(None, f.module, {}, qualname="<entry>")]
+            pushed = True
+        try:
+            if f.is_property:
+                return I.call_function(f, [ref], {}, node, dyncls=o.cls)
+            return I.call_function(f, [ref] + list(args), dict(kwargs or {}), node, dyncls=o.cls)
+        finally:
+            if pushed:
+                I.frames = []
 
     def public_methods(self):
         """name -> FuncInfo of the public non-property methods (MRO resolved)."""
